@@ -708,8 +708,11 @@ def whole_file(src, kind):
                 return ast.copy_location(ast.JoinedStr(values=vals), n)
             return n
 
+    class Identity(ast.NodeTransformer):
+        pass
+
     T = {'swap-and': SwapAnd, 'swap-branches': SwapBranches, 'expand-aug': ExpandAug,
-         'concat-style': ConcatStyle, 'fstrings': FStrings}[kind]
+         'concat-style': ConcatStyle, 'fstrings': FStrings, 'reformat': Identity}[kind]
     tree = T().visit(tree)
     ast.fix_missing_locations(tree)
     return ast.unparse(tree) + '\n'
@@ -718,6 +721,7 @@ def whole_file(src, kind):
 _WHOLE = [(f_, k) for f_ in (S, U, N, B, PS, PR, NE) for k in ('swap-and', 'swap-branches',
                                                               'expand-aug')]
 _WHOLE += [(f_, k) for f_ in (S, U, N, NN) for k in ('concat-style', 'fstrings')]
+_WHOLE += [(f_, 'reformat') for f_ in (S, U, N, B, PS, PR, NE, NN, PO)]
 
 _RENAME_TARGETS = [
     (S, 'Sampler.add_bound'), (S, 'Sampler.add_samples'), (S, 'Sampler.sample_shell'),
